@@ -471,6 +471,8 @@ class Check:
         ev = {"property_id": self.prop, "tier": self.tier, "seed": self.seed, "level": "proof", "coverage": self.cov,
               "assumptions": self.assumptions, "wall_s": round(time.time() - self.t0, 2), "violations": nviol}
         evdir = os.environ.get("VERIF_EVIDENCE_DIR") or os.path.join(ROOT, "evidence")     # (runs against a scratch tree keep their evidence apart)
+        if not re.match(r"^C\d\d$", self.prop):        # an auxiliary engine run on its own (development only): not a property's evidence
+            evdir = os.path.join(evdir, "aux")
         os.makedirs(evdir, exist_ok=True)
         json.dump(ev, open(os.path.join(evdir, f"{self.prop}.json"), "w"), indent=1, default=str)
         for l in lines:
